@@ -23,3 +23,31 @@ Lemma family_multi_nonvacuous :
   N.of_nat (length family_multi) = 48%N /\
   N.of_nat (length (filter (fun c => negb (in_zone (fst c))) family_multi)) = 36%N.
 Proof. vm_compute. split; reflexivity. Qed.
+
+(* ---------- the empty mask ---------- *)
+Require Import OV.Proofs.C04_Bounded.
+Lemma family_empty_checked : forallb check_case family_empty = true /\ forallb check_first family_empty_dd = true.
+Proof. vm_cast_no_check (conj (eq_refl true) (eq_refl true)). Qed.
+
+Lemma check_first_with_spec f z c : check_first_with f z c = true -> z (case_msg c) = false ->
+  f (case_msg c) (case_mask c) = case_want c.
+Proof. unfold check_first_with. intros H Hz. rewrite Hz in H. cbn [orb] in H. apply beq_eq in H. exact H. Qed.
+
+Lemma empty_mask_bounded :
+  (forall c, In c family_empty -> in_zone (case_msg c) = false ->
+     case_mask c = [] /\ mask_password (case_msg c) (case_mask c) = case_want c /\ mask_password (case_want c) (case_mask c) = case_want c) /\
+  (forall c, In c family_empty_dd -> in_zone (case_msg c) = false ->
+     case_mask c = [] /\ mask_password (case_msg c) (case_mask c) = case_want c) /\
+  N.of_nat (length family_empty) = 48%N /\ N.of_nat (length family_empty_dd) = 3%N /\
+  forallb (fun c => negb (in_zone (case_msg c))) (family_empty ++ family_empty_dd) = true.
+Proof.
+  destruct family_empty_checked as [H1 H2]. rewrite forallb_forall in H1, H2.
+  assert (M1 : forallb (fun c => beq (case_mask c) []) family_empty = true) by (vm_compute; reflexivity).
+  assert (M2 : forallb (fun c => beq (case_mask c) []) family_empty_dd = true) by (vm_compute; reflexivity).
+  rewrite forallb_forall in M1, M2.
+  split; [|split; [|vm_compute; repeat split; reflexivity]].
+  - intros c Hin Hz. pose proof (M1 c Hin) as Hm. apply beq_eq in Hm.
+    destruct (check_with_spec mask_password in_zone c (H1 c Hin) Hz) as [A B]. repeat split; assumption.
+  - intros c Hin Hz. pose proof (M2 c Hin) as Hm. apply beq_eq in Hm.
+    split; [exact Hm|exact (check_first_with_spec mask_password in_zone c (H2 c Hin) Hz)].
+Qed.
